@@ -75,3 +75,18 @@ func (x *Exec) boundValueRefs(st *State, v Value) {
 	}
 	visit(v)
 }
+
+// elemRefSt is elemRef plus the facts that follow from the base: an element of a backing array that
+// existed at entry existed at entry (and is classified old, so that reads bypass stores to objects
+// allocated during the run); an element of a fresh array is fresh.
+func (x *Exec) elemRefSt(st *State, base, idx *Term) *Term {
+	r := x.elemRef(base, idx)
+	x.needElemAxiom = true
+	switch st.class(base) {
+	case refOld:
+		st.setClass(r, refOld)
+	case refFresh:
+		st.setClass(r, refFresh)
+	}
+	return r
+}
